@@ -10,7 +10,7 @@ open OdfModel OdfModel.GrammarExceptions OdfModel.Grammar OdfModel.GrammarApi Od
     ename|aname|kname <i>     ok <name>
     addrow <chk> <p>          ok <one char per child id: . accepted, C IllegalChild>
     text|cdata <chk> <e>      ok | err IllegalText
-    setrow <chk> <e>          ok <per keyword id: attribute id | A (AttributeError) | V (ValueError)>
+    setrow <chk> <e>          ok <per keyword of the keyword universe (kname order): attribute id | A (AttributeError) | V (ValueError)>
     ctor <chk> <e> <given>    ok | err AttributeError <missing attribute id>
     factories                 ok <element ids produced by the factories>
     exceptions | known        ok <kind|element|item> …      (the hand-written lists of GrammarExceptions.lean, by name)
@@ -57,7 +57,7 @@ def handle (line : String) : String :=
       | some c, some e => (match addCDATA T (c != 0) e with | .ok _ => "ok" | .error x => "err " ++ errName x)
       | _, _ => "err bad-arg"
   | ["setrow", c, e] => match c.toNat?, e.toNat? with
-      | some c, some e => "ok " ++ String.intercalate " " ((List.range GrammarTables.nKws).map fun k =>
+      | some c, some e => "ok " ++ String.intercalate " " (GrammarNames.kwName.map fun k =>
           match setAttribute T (c != 0) e k with
           | .ok a => toString a | .error .ValueError => "V" | .error _ => "A")
       | _, _ => "err bad-arg"
